@@ -5,7 +5,7 @@ from core import Case, canon, hx, REPO
 import c01
 
 PROP = "C10"
-LEAN_MODULES = ["DrxProps.C10", "DrxProps.C10Cast", "DrxProps.C10Idx", "DrxProps.C10Snd"]
+LEAN_MODULES = ["DrxProps.C10", "DrxProps.C10Cast", "DrxProps.C10Idx", "DrxProps.C10Snd", "DrxProps.C10Bitd"]
 FAMILIES = ["riff", "cast", "idx", "text", "snd"]
 RULE = ("for each public decoder: real files from the repo's fixtures (<= 64 KiB), mutated copies with every 1/2/4-byte field at the "
         "leading offsets set to 0, 1, -1, max, min and self-referential (len) values, truncations at many offsets, random byte strings, and "
